@@ -24,9 +24,10 @@ import (
 //	     message has entered.
 
 type c03member struct {
-	note bool
-	tag  string
-	id   int
+	note    bool
+	builtin bool // a call to rpc.serverInfo: no harness handler, observed through its reply
+	tag     string
+	id      int
 }
 
 type c03msg struct {
@@ -34,7 +35,7 @@ type c03msg struct {
 	batch   bool
 }
 
-var c03alphabet = []string{"N", "C", "NC", "NN", "CC", "CNC"}
+var c03alphabet = []string{"N", "C", "NC", "NN", "CC", "CNC", "CN", "B"}
 
 func c03build(script []string) (msgs []c03msg, tags []string) {
 	id := 0
@@ -42,13 +43,15 @@ func c03build(script []string) (msgs []c03msg, tags []string) {
 		var m c03msg
 		m.batch = len(sym) > 1
 		for j, ch := range sym {
-			mem := c03member{note: ch == 'N', tag: fmt.Sprintf("m%d.%d", i, j)}
+			mem := c03member{note: ch == 'N', builtin: ch == 'B', tag: fmt.Sprintf("m%d.%d", i, j)}
 			if !mem.note {
 				id++
 				mem.id = id
 			}
 			m.members = append(m.members, mem)
-			tags = append(tags, mem.tag)
+			if !mem.builtin {
+				tags = append(tags, mem.tag)
+			}
 		}
 		msgs = append(msgs, m)
 	}
@@ -62,6 +65,10 @@ func (m c03msg) wire() string {
 		if !mem.note {
 			id = fmt.Sprint(mem.id)
 		}
+		if mem.builtin {
+			parts = append(parts, peer.Req(id, "rpc.serverInfo", ""))
+			continue
+		}
 		parts = append(parts, peer.Req(id, "g", mem.tag))
 	}
 	if m.batch {
@@ -71,8 +78,18 @@ func (m c03msg) wire() string {
 }
 
 // c03state checks clause (ii) and the state form of clause (i).
-func c03state(c *vt.Ctx, log *peer.Log, msgs []c03msg, conc int, when string) {
+func c03state(c *vt.Ctx, rig *peer.ServerRig, msgs []c03msg, conc int, when string) {
+	log := rig.Log
 	entered, exited := map[string]int64{}, map[string]int64{}
+	// a built-in call has run iff its reply is on the wire
+	answered := map[string]bool{}
+	for _, rec := range rig.Outbound() {
+		if ms, _, err := peer.Decode(rec); err == nil {
+			for _, m := range ms {
+				answered[string(m.ID)] = true
+			}
+		}
+	}
 	for _, e := range log.Events() {
 		switch e.Kind {
 		case "h.enter":
@@ -90,10 +107,17 @@ func c03state(c *vt.Ctx, log *peer.Log, msgs []c03msg, conc int, when string) {
 		for _, mem := range m.members {
 			_, en := entered[mem.tag]
 			_, ex := exited[mem.tag]
+			if mem.builtin {
+				en = answered[fmt.Sprint(mem.id)]
+				ex = en
+				if released && !en && conc > 1 {
+					// a released built-in call only waits for a slot; with a free slot it must have run
+				}
+			}
 			if en && !released {
 				c.Failf("%s: request %s of message %d entered although an earlier notification has not returned", when, mem.tag, i)
 			}
-			if released && !ex {
+			if released && !ex && !mem.builtin {
 				pending++
 			}
 			if en && !ex {
@@ -127,6 +151,9 @@ func c03final(c *vt.Ctx, log *peer.Log, msgs []c03msg) {
 	}
 	for i, m := range msgs {
 		for _, mem := range m.members {
+			if mem.builtin {
+				continue
+			}
 			if _, ok := enter[mem.tag]; !ok {
 				c.Failf("final: request %s never ran", mem.tag)
 			}
@@ -164,11 +191,11 @@ func c03exec(c *vt.Ctx, r c03run) {
 			rig.Send(m.wire())
 		}
 		rig.Settle()
-		c03state(c, rig.Log, msgs, effConc, "after arrival")
+		c03state(c, rig, msgs, effConc, "after arrival")
 		for k, tag := range r.order {
 			rig.H.Release(tag)
 			rig.Settle()
-			c03state(c, rig.Log, msgs, effConc, fmt.Sprintf("after release %d (%s)", k, tag))
+			c03state(c, rig, msgs, effConc, fmt.Sprintf("after release %d (%s)", k, tag))
 		}
 		if _, ok := rig.Finish(); !ok {
 			c.Failf("server did not exit after the peer closed")
@@ -184,7 +211,7 @@ func init() {
 	vt.Register(&vt.Check{
 		Prop:  "C03",
 		Level: "exploration",
-		Rule: "scripts = all sequences (length<=L) of gated messages over {N,C,[N,C],[N,N],[C,C],[C,N,C]} sent back to back to a real server, " +
+		Rule: "scripts = all sequences (length<=L) of gated messages over {N,C,[N,C],[N,N],[C,C],[C,N,C],[C,N], built-in call rpc.serverInfo} sent back to back to a real server, " +
 			"x Concurrency {1,2,8} x every release order of the gates (<=4 gates; seeded orders beyond), oracle at every quiescent point; " +
 			"plus delay-bounded schedules (every single hook visit parked, pairs in thorough) and seeded perturbation. " +
 			"distinct_nontrivial = distinct (script, concurrency, release order, delay set) executions that contained at least one notification followed by a later message",
